@@ -89,6 +89,16 @@ pub broadcast proof fn axiom_split_iter_items<'a, T, P: FnMut(&T) -> bool>(s: st
     ensures #[trigger] iter_items(s) == split_items(s),
 { admit(); }
 
+/// R10: `for P in it { B }` with `it: &mut impl Iterator` is rewritten to `while let Some(P) = vf_iter_next(it) { B }`
+/// (the language's desugaring of `for`).  ASSUMED: an iterator yields exactly `iter_items`, one item per call, then None -
+/// the same ghost-sequence model `Peekable::next` is given above (consistent with it by axiom_peekable_items).
+#[verifier::external_body]
+pub fn vf_iter_next<I: Iterator>(it: &mut I) -> (r: Option<I::Item>)
+    ensures
+        iter_items(*old(it)).len() == 0 ==> r is None && iter_items(*final(it)) == iter_items(*old(it)),
+        iter_items(*old(it)).len() > 0 ==> r == Some(iter_items(*old(it))[0]) && iter_items(*final(it)) == iter_items(*old(it)).skip(1),
+{ it.next() }
+
 /// The total order `Ord::cmp` induces on T, as a spec relation.  Uninterpreted; pinned down
 /// per type by an axiom whose statement Kani proves on the real derived `Ord` (U-SUB/ord).
 pub uninterp spec fn ord_le<T>(a: T, b: T) -> bool;
@@ -397,6 +407,43 @@ pub assume_specification<T: PartialEq>[ <[T]>::contains ](s: &[T], x: &T) -> (r:
 pub assume_specification<T: Clone>[ <[T]>::to_vec ](s: &[T]) -> (r: Vec<T>)
     ensures r@ == s@,
 ;
+
+/// ASSUMED std contract: Option::map_or returns the default for None, else the closure's result
+pub assume_specification<T, U, F: FnOnce(T) -> U>[ Option::<T>::map_or ](o: Option<T>, d: U, f: F) -> (r: U)
+    requires
+        o is Some ==> f.requires((o->0,)),
+    ensures
+        o is None ==> r == d,
+        o is Some ==> f.ensures((o->0,), r),
+;
+
+/// element-wise equality of two sequences under the element type's `PartialEq`
+pub open spec fn slice_eq<P: PartialEq>(a: Seq<P>, b: Seq<P>) -> bool {
+    a.len() == b.len() && forall|i: int| 0 <= i < a.len() ==> vstd::std_specs::cmp::PartialEqSpec::eq_spec(&#[trigger] a[i], &b[i])
+}
+/// `==` on `Option<Box<[P]>>`
+pub open spec fn obs_eq<P: PartialEq>(a: Option<Box<[P]>>, b: Option<Box<[P]>>) -> bool {
+    match (a, b) { (None, None) => true, (Some(x), Some(y)) => slice_eq(x@, y@), _ => false }
+}
+/// ASSUMED std semantics: `Box<[P]> == Box<[P]>` compares the two slices element by element with `P::eq`
+pub proof fn axiom_box_slice_eq<P: PartialEq>()
+    ensures
+        <Box<[P]> as vstd::std_specs::cmp::PartialEqSpec>::obeys_eq_spec() == <P as vstd::std_specs::cmp::PartialEqSpec>::obeys_eq_spec(),
+        forall|a: Box<[P]>, b: Box<[P]>| #[trigger] vstd::std_specs::cmp::PartialEqSpec::eq_spec(&a, &b) == slice_eq(a@, b@),
+{ admit(); }
+
+/// ASSUMED: `Borrow::borrow` is a pure function of the value
+#[verifier::external_trait_specification]
+pub trait ExBorrow<Borrowed: ?Sized> {
+    type ExternalTraitSpecificationFor: core::borrow::Borrow<Borrowed>;
+    fn borrow(&self) -> (r: &Borrowed)
+        ensures r == borrow_spec::<Self, Borrowed>(self);
+}
+pub uninterp spec fn borrow_spec<S: core::marker::PointeeSized, T: core::marker::PointeeSized>(s: &S) -> &T;
+/// ASSUMED (std): the reflexive `impl<T> Borrow<T> for T` is the identity
+pub proof fn axiom_borrow_id<T>(x: &T)
+    ensures borrow_spec::<T, T>(x) == x,
+{ admit(); }
 
 /// ASSUMED std contract: Option::map_or_else calls exactly one of the two closures
 pub assume_specification<T, U, D: FnOnce() -> U, F: FnOnce(T) -> U>[ Option::<T>::map_or_else ](o: Option<T>, d: D, f: F) -> (r: U)
